@@ -2,5 +2,5 @@ From TL Require Import Base.Base Model.Reader Model.Printer Model.Store Model.Ev
 Require Import ExtrOcamlBasic.
 Extraction Language OCaml.
 Extraction "tlmodel.ml"
-  eval_string eval_file init_state reset_request add_file var_items
+  eval_string eval_file parse_string init_state reset_request add_file var_items
   print princ read_ax strip ax_span tokenize.
